@@ -73,6 +73,27 @@ Theorem construction_assigns_arguments_or_defaults : forall V (fields : list (st
   run_init V (generate_init V fields) args = Ok (init_spec V fields args).
 Proof. exact init_assigns_arguments_or_defaults. Qed.
 
+(* every field of a constructed instance is the argument given for it or, when none (or None) was given, the type's default *)
+Theorem constructed_field_is_argument_or_default : forall V (fields : list (string * V)) args, NoDup (map fst fields) ->
+  forall i nm d, nth_error fields i = Some (nm, d) ->
+  lookup nm (init_spec V fields args) = Some (match nth i args None with Some v => v | None => d end).
+Proof. exact constructed_field_is_argument_or_default. Qed.
+(* constructing from positional / keyword values = assigning those fields on a default instance: every name reads the same.
+   Distinct names are needed (repeated_names_break_it below) - and the library admits a repeated `_`: known finding *)
+Theorem construction_is_default_then_assignment : forall V (fields : list (string * V)) args, NoDup (map fst fields) -> forall k,
+  lookup k (init_spec V fields args)
+  = lookup k (fold_left (step_assign V args) (combine (seq 0 (length fields)) fields) (init_spec V fields [])).
+Proof. exact construction_is_default_then_assignment. Qed.
+Theorem assignment_then_read : forall V (l : list (string * V)) nm v k,
+  lookup k (set_attr V l nm v) = if String.eqb k nm then Some v else lookup k l.
+Proof. exact lookup_set_attr. Qed.
+Example repeated_names_break_it :
+  lookup "x" (init_spec Z [("x", 0%Z); ("x", 0%Z)] [Some 7%Z; None]) = Some 0%Z /\
+  lookup "x" (fold_left (step_assign Z [Some 7%Z; None]) (combine (seq 0 2) [("x", 0%Z); ("x", 0%Z)]) (init_spec Z [("x", 0%Z); ("x", 0%Z)] [])) = Some 7%Z.
+Proof. vm_compute. split; reflexivity. Qed.
+
+Print Assumptions constructed_field_is_argument_or_default.
+Print Assumptions construction_is_default_then_assignment.
 Print Assumptions equal_exactly_when_same_type_and_all_fields_equal.
 Print Assumptions equal_instances_hash_equally.
 Print Assumptions falsy_exactly_when_all_fields_are.
